@@ -264,7 +264,7 @@ the k-th MasterHead() call of the refresh. -/
 def selectMoving (v : Variant) (st : Strategy) (prev : Int) (args : List String) : String :=
   let mem := args.filter (fun x => !x.startsWith "m" && !x.startsWith "r")
   let moves := (args.filter (fun x => x.startsWith "m")).map fun x => ((x.drop 1).toString.splitOn ":").map (·.toNat?.getD 0)
-  -- r<i>:<conn>:<rtt>: the round-trip time of <conn> changes just before the selection loop looks at member i
+  -- r<i>:<conn>:<rtt>: the round-trip time of <conn> changes just before the refresh reads member i
   let rmoves := (args.filter (fun x => x.startsWith "r")).map fun x => ((x.drop 1).toString.splitOn ":").map (·.toNat?.getD 0)
   let rtts (k : Nat) (s : State) : State :=
     (rmoves.filter (fun m => m.getD 0 0 == k)).foldl (fun (s : State) m =>
@@ -284,10 +284,10 @@ def selectMoving (v : Variant) (st : Strategy) (prev : Int) (args : List String)
         | some s1 => (step v s1 (.sSend j)).getD s1
         | none => s) s
       runTrace v s [a]
-    let pass1 := (List.range n).foldl (fun (o : Option State) k => o.bind (readStep k .ubRead)) (runTrace v s0 [.tick, .ubLock])
+    let pass1 := (List.range n).foldl (fun (o : Option State) k => o.bind fun s => readStep k .ubRead (rtts k s))
+      (runTrace v s0 [.tick, .ubLock])
     let pass1 := pass1.bind fun s => runTrace v s [.ubRead]
     let pass2 := (List.range n).foldl (fun (o : Option State) k => o.bind fun s =>
-      let s := rtts k s
       if v.oneSnapshot then runTrace v s [.ubSel] else readStep (n + k) .ubSel s) pass1
     match pass2.bind fun s => runTrace v s [.ubSet] with
     | some s => s!"ok {(match s.best with | none => (-1 : Int) | some c => c)}"
